@@ -16,7 +16,7 @@ func findMember(ms []MemberInfo, name string) *MemberInfo {
 }
 
 type memWant struct {
-	name                              string
+	name                            string
 	off, size, arrStride, matStride int
 }
 
